@@ -51,4 +51,25 @@ static void verif_compress(uint32_t *s, const unsigned char *blocks, size_t n) {
     (void)s; (void)blocks; (void)n;
 #endif
 }
+
+/* memcpy model for the hash units.  CBMC's built-in model of a symbolic-length memcpy (array_replace of a
+ * variable-length array into a struct member) does not get through propositional reduction here.
+ * Every memcpy in the hashing code copies at most 64 bytes; this model is exact for n <= MEMCPY_MAX and
+ * the bound is itself an obligation.  Reads and writes are individually pointer-checked.
+ * Use: #define VERIF_MEMCPY_MODEL before this header, then
+ *      #define memcpy verif_memcpy64   /  #include "src/secp256k1.c"  /  #undef memcpy
+ * so that only the repository's calls are redirected. */
+#if defined(VERIF_MEMCPY_MODEL) && !defined(VERIF_NATIVE)
+#ifndef MEMCPY_MAX
+#define MEMCPY_MAX 64
+#endif
+static void *verif_memcpy64(void *dst, const void *src, size_t n) {
+    unsigned char *d_ = dst; const unsigned char *s_ = src; size_t i_;
+    __CPROVER_assert(n <= MEMCPY_MAX, "C05 memcpy model: length within the modelled bound");
+    for (i_ = 0; i_ < MEMCPY_MAX; i_++) if (i_ < n) d_[i_] = s_[i_];
+    return dst;
+}
+#elif defined(VERIF_MEMCPY_MODEL)
+#define verif_memcpy64 memcpy
+#endif
 #endif
